@@ -7,7 +7,11 @@ of a string-enum variant, the derive lists, the serde path and the `pub` flag of
 two contexts that agree on the schema, the query, the case functions and on `deprecation`, `otherVariant`,
 `skipNone`, `externEnums` — but not necessarily on `normalization` (nor on the derive / placement options of
 `C09Options`) — generate the same list of items, in the same order, or fail with the same error
-(`normalization_only_renames`).  The one side condition, `IdStable`: no enum / scalar name is turned into, or
+(`normalization_only_renames`; core: `calc_erase`, the congruence of the four mutual `calc*` functions up to
+`eraseItem` / `eraseField`).  `normalization_modRel` is the structured form: the modules are equal up to names chunk
+by chunk, `Variables` / `ResponseData` sit at the same positions, and string enums at the same position are
+`enumItem c e` / `enumItem c' e` for the same schema enum `e` (`calc_noEnum`: the `calc*` block emits no string
+enum).  The one side condition, `IdStable`: no enum / scalar name is turned into, or
 away from, the special name `ID` (the generator tests the *normalized* name against `"ID"` to decide whether a
 field gets the `deserialize_with` ID helpers).
 -/
@@ -430,6 +434,291 @@ theorem variablesItems_erase {c c' : Ctx} (H : NormAgree c c') (op : Nat) :
           exact ORel.pure trivial
       · exact ORel.pure (by simp only [EI, List.map_cons, List.map_nil, eraseItem, hfs])
 
+/-! ## string enums come only from `enumItem` -/
+
+def isEnum : Item → Bool
+  | .gqlEnum .. => true
+  | _ => false
+
+def NoEnum (l : List Item) : Prop := ∀ it ∈ l, isEnum it = false
+
+theorem NoEnum.nil : NoEnum [] := fun _ h => by cases h
+
+theorem NoEnum.append {a b : List Item} (ha : NoEnum a) (hb : NoEnum b) : NoEnum (a ++ b) := by
+  intro it h
+  rcases List.mem_append.mp h with h | h
+  · exact ha it h
+  · exact hb it h
+
+theorem NoEnum.cons {a : Item} {b : List Item} (ha : isEnum a = false) (hb : NoEnum b) : NoEnum (a :: b) := by
+  intro it h
+  rcases List.mem_cons.mp h with rfl | h
+  · exact ha
+  · exact hb it h
+
+/-- a property of the result, if there is one -/
+def OAll {α} (P : α → Prop) : Outcome α → Prop
+  | .ok a => P a
+  | .error _ => True
+
+theorem OAll.pure {α} {P : α → Prop} {a : α} (h : P a) : OAll P (Pure.pure a : Outcome α) := h
+
+theorem OAll.bind {α β} {P : α → Prop} {Q : β → Prop} {x : Outcome α} {f : α → Outcome β}
+    (hx : OAll P x) (hf : ∀ a, P a → OAll Q (f a)) : OAll Q (x >>= f) := by
+  cases x
+  · exact trivial
+  · exact hf _ hx
+
+theorem OAll.bind_any {α β} {Q : β → Prop} {x : Outcome α} {f : α → Outcome β}
+    (hf : ∀ a, OAll Q (f a)) : OAll Q (x >>= f) := by
+  cases x
+  · exact trivial
+  · exact hf _
+
+theorem OAll.error {α} {P : α → Prop} (e : Err) : OAll P (.error e : Outcome α) := trivial
+
+theorem OAll.of_ok {α} {P : α → Prop} {x : Outcome α} {a : α} (h : OAll P x) (hx : x = .ok a) : P a := by
+  subst hx; exact h
+
+theorem OAll.mapM {α β} {P : β → Prop} {g : α → Outcome β} (h : ∀ x, OAll P (g x)) :
+    ∀ xs : List α, OAll (fun ys => ∀ y ∈ ys, P y) (xs.mapM g)
+  | [] => by simp only [List.mapM_nil]; exact OAll.pure (fun _ h => by cases h)
+  | x :: xs => by
+    simp only [List.mapM_cons]
+    apply OAll.bind (h x); intro a ha
+    apply OAll.bind (OAll.mapM h xs); intro as has
+    apply OAll.pure
+    intro y hy
+    rcases List.mem_cons.mp hy with rfl | hy
+    · exact ha
+    · exact has y hy
+
+theorem renderType_noEnum (c : Ctx) (n : String) (fs : List RField) (vs : List RVariant) : NoEnum (renderType c n fs vs) := by
+  unfold renderType
+  split
+  · exact NoEnum.cons rfl NoEnum.nil
+  · split
+    · exact NoEnum.cons rfl NoEnum.nil
+    · exact NoEnum.cons rfl (NoEnum.cons rfl NoEnum.nil)
+
+theorem calc_noEnum (c : Ctx) : ∀ fuel,
+    (∀ name pfx t sels, OAll NoEnum (calcSelection c fuel name pfx t sels)) ∧
+    (∀ name pfx vsels vts, OAll (fun r => NoEnum r.2) (calcVariants c fuel name pfx vsels vts)) ∧
+    (∀ sname pfx vt vsels, OAll (fun r => NoEnum r.2.1 ∧ NoEnum r.2.2) (calcVariantSels c fuel sname pfx vt vsels)) ∧
+    (∀ pfx t sels, OAll (fun r => NoEnum r.2) (calcFields c fuel pfx t sels)) := by
+  intro fuel
+  induction fuel with
+  | zero =>
+    refine ⟨?_, ?_, ?_, ?_⟩
+    · intros; unfold calcSelection; exact trivial
+    · intros; unfold calcVariants; exact trivial
+    · intros; unfold calcVariantSels; exact trivial
+    · intros; unfold calcFields; exact trivial
+  | succ n ih =>
+    obtain ⟨ihS, ihV, ihVS, ihF⟩ := ih
+    refine ⟨?_, ?_, ?_, ?_⟩
+    · intro name pfx t sels
+      unfold calcSelection
+      simp only
+      split
+      · apply OAll.bind_any; intro f
+        exact OAll.pure (NoEnum.cons rfl NoEnum.nil)
+      · apply OAll.bind_any; intro variants
+        cases variants with
+        | none =>
+          simp only [pure_bind]
+          apply OAll.bind (ihF pfx t sels); intro a ha
+          exact OAll.pure (((renderType_noEnum c name _ _).append NoEnum.nil).append ha)
+        | some vts =>
+          simp only [pure_bind]
+          apply OAll.bind_any; intro vsels
+          apply OAll.bind (ihV name pfx vsels vts); intro r hr
+          apply OAll.bind (ihF pfx t sels); intro a ha
+          exact OAll.pure (((renderType_noEnum c name _ _).append hr).append ha)
+    · intro name pfx vsels vts
+      cases vts with
+      | nil => unfold calcVariants; exact OAll.pure NoEnum.nil
+      | cons vt rest =>
+        unfold calcVariants
+        simp only []
+        apply OAll.bind_any; intro vname
+        have hrest : ∀ (v : RVariant) (i : List Item), NoEnum i →
+            OAll (fun r : List RVariant × List Item => NoEnum r.2)
+              (do let __x ← (Pure.pure (v, i) : Outcome _)
+                  let __x_1 ← calcVariants c n name pfx vsels rest
+                  Pure.pure (__x.fst :: __x_1.fst, __x.snd ++ __x_1.snd)) := by
+          intro v i hi
+          simp only [pure_bind]
+          apply OAll.bind (ihV name pfx vsels rest); intro a ha
+          exact OAll.pure (hi.append ha)
+        generalize List.filter (fun v => v.typeId == vt) vsels = mine
+        split
+        · exact hrest _ _ NoEnum.nil
+        · split
+          · exact hrest _ _ (NoEnum.cons rfl NoEnum.nil)
+          · apply OAll.bind (ihVS _ pfx vt _); intro r hr
+            obtain ⟨r1, r2, r3⟩ := r
+            obtain ⟨h2, h3⟩ := hr
+            simp only at h2 h3
+            cases r3 with
+            | nil => exact hrest _ _ ((renderType_noEnum c _ _ _).append h2)
+            | cons x xs => exact hrest _ _ (NoEnum.cons (h3 x (by simp)) h2)
+    · intro sname pfx vt vsels
+      cases vsels with
+      | nil => unfold calcVariantSels; exact OAll.pure ⟨NoEnum.nil, NoEnum.nil⟩
+      | cons v rest =>
+        cases v with
+        | inline t sub =>
+          unfold calcVariantSels
+          apply OAll.bind_any; intro tn
+          simp only
+          split
+          · apply OAll.bind_any; intro fr
+            simp only [pure_bind]
+            apply OAll.bind (ihVS sname pfx vt rest); intro a ha
+            exact OAll.pure ⟨NoEnum.nil.append ha.1, (NoEnum.cons rfl NoEnum.nil).append ha.2⟩
+          · apply OAll.bind (ihF _ vt sub); intro x hx
+            simp only [pure_bind]
+            apply OAll.bind (ihVS sname pfx vt rest); intro a ha
+            exact OAll.pure ⟨hx.append ha.1, NoEnum.nil.append ha.2⟩
+        | spread fid fr =>
+          unfold calcVariantSels
+          apply OAll.bind_any; intro fld
+          apply OAll.bind (ihVS sname pfx vt rest); intro a ha
+          exact OAll.pure ha
+    · intro pfx t sels
+      cases sels with
+      | nil => unfold calcFields; exact OAll.pure NoEnum.nil
+      | cons sel rest =>
+        have hcons : ∀ (fl : Option RField) (i : List Item), NoEnum i →
+            OAll (fun r : List RField × List Item => NoEnum r.2)
+              (do let __x ← (Pure.pure (fl, i) : Outcome _)
+                  let __x_1 ← calcFields c n pfx t rest
+                  Pure.pure (__x.fst.toList ++ __x_1.fst, __x.snd ++ __x_1.snd)) := by
+          intro fl i hi
+          simp only [pure_bind]
+          apply OAll.bind (ihF pfx t rest); intro a ha
+          exact OAll.pure (hi.append ha)
+        cases sel with
+        | field al fid sub =>
+          unfold calcFields
+          apply OAll.bind_any; intro sf
+          simp only
+          split
+          · apply OAll.bind_any; intro en
+            apply OAll.bind_any; intro fl
+            exact hcons _ _ NoEnum.nil
+          · apply OAll.bind_any; intro sn
+            apply OAll.bind_any; intro fl
+            exact hcons _ _ NoEnum.nil
+          · exact trivial
+          · apply OAll.bind_any; intro fl
+            apply OAll.bind (ihS _ _ _ sub); intro i hi
+            exact hcons _ _ hi
+        | spread fid =>
+          unfold calcFields
+          apply OAll.bind_any; intro fr
+          apply OAll.bind (ihF pfx t rest); intro a ha
+          obtain ⟨fs, items⟩ := a
+          simp only at ha ⊢
+          split
+          · exact OAll.pure ha
+          · apply OAll.bind_any; intro fl
+            exact OAll.pure ha
+        | inline t' sub =>
+          unfold calcFields
+          exact ihF pfx t rest
+        | typename =>
+          unfold calcFields
+          exact ihF pfx t rest
+
+theorem scalarItems_noEnum (c : Ctx) (u : UsedTypes) : OAll NoEnum (scalarItems c u) := by
+  unfold scalarItems
+  simp only []
+  apply OAll.bind_any; intro names
+  apply OAll.pure
+  intro it h
+  obtain ⟨n, _, rfl⟩ := List.mem_map.mp h
+  rfl
+
+theorem inputItems_noEnum (c : Ctx) (u : UsedTypes) : OAll NoEnum (inputItems c u) := by
+  unfold inputItems
+  refine OAll.mapM (P := fun it => isEnum it = false) (fun x => ?_) _
+  unfold inputItem
+  simp only []
+  split
+  · apply OAll.bind_any; intro vs; exact OAll.pure rfl
+  · apply OAll.bind_any; intro fs; exact OAll.pure rfl
+
+theorem variablesItems_noEnum (c : Ctx) (op : Nat) : OAll NoEnum (variablesItems c op) := by
+  unfold variablesItems
+  simp only []
+  split
+  · exact OAll.pure (NoEnum.cons rfl NoEnum.nil)
+  · apply OAll.bind_any; intro fs
+    apply OAll.bind_any; intro dfl
+    exact OAll.pure (NoEnum.cons rfl (NoEnum.cons rfl NoEnum.nil))
+
+theorem fragmentItems_noEnum (c : Ctx) (fid : Nat) : OAll NoEnum (fragmentItems c fid) := by
+  unfold fragmentItems
+  apply OAll.bind_any; intro fr
+  exact (calc_noEnum c _).1 _ _ _ _
+
+theorem responseItems_noEnum (c : Ctx) (o : ROperation) : OAll NoEnum (responseItems c o) := by
+  unfold responseItems
+  exact (calc_noEnum c _).1 _ _ _ _
+
+theorem noEnum_flatten {ls : List (List Item)} (h : ∀ l ∈ ls, NoEnum l) : NoEnum ls.flatten := by
+  intro it hit
+  obtain ⟨l, hl, hi⟩ := List.mem_flatten.mp hit
+  exact h l hl it hi
+
+theorem getEnum_mem' (s : Schema) (i : Nat) : OAll (· ∈ s.enums) (s.getEnum i) := by
+  unfold Schema.getEnum
+  split
+  · rename_i o ho; exact OAll.pure (List.mem_of_getElem? ho)
+  · exact trivial
+
+/-- the enum items of the two modules are `enumItem c e` / `enumItem c' e` for the same enums `e` -/
+theorem enumItems_from {c c' : Ctx} (hs : c'.s = c.s) (hx : c'.o.externEnums = c.o.externEnums) (u : UsedTypes)
+    (en : List Item) (h : enumItems c u = .ok en) :
+    ∃ es : List StoredEnum, (∀ e ∈ es, e ∈ c.s.enums) ∧ en = es.map (enumItem c) ∧
+      enumItems c' u = .ok (es.map (enumItem c')) := by
+  unfold enumItems at h ⊢
+  simp only [hs, hx]
+  obtain ⟨es, hes, h⟩ := bind_ok h
+  cases h
+  have hmem := (OAll.mapM (getEnum_mem' c.s) _).of_ok hes
+  refine ⟨es.filter (fun e => !c.o.externEnums.contains e.name), fun e he => hmem e (List.mem_filter.mp he).1, rfl, ?_⟩
+  rw [hes]; rfl
+
+/-- at every position the two items are the enum items of the same enum, or the first one is not an enum -/
+def EnumsFrom (c c' : Ctx) (a b : List Item) : Prop :=
+  ∀ x ∈ a.zip b, (∃ e ∈ c.s.enums, x = (enumItem c e, enumItem c' e)) ∨ isEnum x.1 = false
+
+theorem enumsFrom_append {c c' : Ctx} {a a' b b' : List Item} (hl : a.length = a'.length)
+    (ha : EnumsFrom c c' a a') (hb : EnumsFrom c c' b b') : EnumsFrom c c' (a ++ b) (a' ++ b') := by
+  intro x hx
+  rw [List.zip_append hl] at hx
+  rcases List.mem_append.mp hx with h | h
+  · exact ha x h
+  · exact hb x h
+
+theorem enumsFrom_of_noEnum {c c' : Ctx} {a b : List Item} (ha : NoEnum a) : EnumsFrom c c' a b := by
+  intro x hx
+  obtain ⟨x1, x2⟩ := x
+  exact Or.inr (ha x1 (List.of_mem_zip hx).1)
+
+theorem enumsFrom_map {c c' : Ctx} {es : List StoredEnum} (h : ∀ e ∈ es, e ∈ c.s.enums) :
+    EnumsFrom c c' (es.map (enumItem c)) (es.map (enumItem c')) := by
+  intro x hx
+  rw [List.zip_map'] at hx
+  obtain ⟨e, he, rfl⟩ := List.mem_map.mp hx
+  exact Or.inl ⟨e, h e he, rfl⟩
+
+theorem ei_length {a b : List Item} (h : EI a b) : a.length = b.length := by
+  simpa using congrArg List.length h
+
 /-! ## where `Variables` and `ResponseData` sit -/
 
 /-- the first item is named `n` -/
@@ -490,21 +779,21 @@ theorem ORel.bind' {α β} {R : α → α → Prop} {S : β → β → Prop} {x 
   · exact hfg _ _ rfl rfl hxy
 
 /-- the two modules are equal up to names chunk by chunk; the chunk of the variables starts with `Variables`,
-    the last chunk with `ResponseData` -/
-def ModRel (a b : List Item) : Prop :=
+    the last chunk with `ResponseData`; string enums at the same position come from the same schema enum -/
+def ModRel (c c' : Ctx) (a b : List Item) : Prop :=
   ∃ pre pre' vars vars' mid mid' resp resp',
     a = pre ++ vars ++ mid ++ resp ∧ b = pre' ++ vars' ++ mid' ++ resp' ∧
     EI pre pre' ∧ EI vars vars' ∧ EI mid mid' ∧ EI resp resp' ∧
     HeadNamed "Variables" vars ∧ HeadNamed "Variables" vars' ∧
-    HeadNamed "ResponseData" resp ∧ HeadNamed "ResponseData" resp'
+    HeadNamed "ResponseData" resp ∧ HeadNamed "ResponseData" resp' ∧ EnumsFrom c c' a b
 
-theorem ModRel.ei {a b : List Item} (h : ModRel a b) : EI a b := by
+theorem ModRel.ei {c c' : Ctx} {a b : List Item} (h : ModRel c c' a b) : EI a b := by
   obtain ⟨pre, pre', vars, vars', mid, mid', resp, resp', rfl, rfl, h1, h2, h3, h4, _⟩ := h
   simp only [EI, List.map_append] at *
   rw [h1, h2, h3, h4]
 
 theorem normalization_modRel {c c' : Ctx} (H : NormAgree c c') (hid : IdStable c c') (op : Nat) :
-    ORel ModRel (responseForQuery c op) (responseForQuery c' op) := by
+    ORel (ModRel c c') (responseForQuery c op) (responseForQuery c' op) := by
   have hC := calc_erase H.toCalcNorm hid
   have hfrag : ∀ fid, ORel (fun a b : List Item => a.map eraseItem = b.map eraseItem) (fragmentItems c fid) (fragmentItems c' fid) := by
     intro fid
@@ -525,20 +814,48 @@ theorem normalization_modRel {c c' : Ctx} (H : NormAgree c c') (hid : IdStable c
   unfold responseForQuery
   simp only [H.s, H.q]
   apply ORel.bind_same; intro u
-  apply ORel.bind (scalarItems_erase H u); intro sc sc' hsc
-  apply ORel.bind (enumItems_erase H u); intro en en' hen
-  apply ORel.bind (ORel.mapM (List.map eraseItem) hfrag _); intro fr fr' hfr
-  apply ORel.bind (hinput u); intro inp inp' hinp
+  apply ORel.bind' (scalarItems_erase H u); intro sc sc' hsc0 _ hsc
+  apply ORel.bind' (enumItems_erase H u); intro en en' hen0 hen0' hen
+  apply ORel.bind' (ORel.mapM (List.map eraseItem) hfrag _); intro fr fr' hfr0 _ hfr
+  apply ORel.bind' (hinput u); intro inp inp' hinp0 _ hinp
   apply ORel.bind' (variablesItems_erase H op); intro vs vs' hv hv' hvs
   apply ORel.bind_same; intro o
   apply ORel.bind' (hresp o); intro r r' hr hr' hrr
   apply ORel.pure
+  have hpre : EI (builtinAliases ++ sc ++ en ++ inp) (builtinAliases ++ sc' ++ en' ++ inp') := by
+    simp only [EI, List.map_append, hsc, hen, hinp]
+  have hmid : EI fr.flatten fr'.flatten := by simp only [EI, List.map_flatten, hfr]
   refine ⟨builtinAliases ++ sc ++ en ++ inp, builtinAliases ++ sc' ++ en' ++ inp', vs, vs', fr.flatten, fr'.flatten, r, r',
-    rfl, rfl, ?_, hvs, ?_, hrr, variablesItems_head c op vs hv, variablesItems_head c' op vs' hv', ?_, ?_⟩
-  · simp only [EI, List.map_append, hsc, hen, hinp]
-  · simp only [EI, List.map_flatten, hfr]
+    rfl, rfl, hpre, hvs, hmid, hrr, variablesItems_head c op vs hv, variablesItems_head c' op vs' hv', ?_, ?_, ?_⟩
   · unfold responseItems at hr; exact calcSelection_head _ _ _ _ _ _ _ hr
   · unfold responseItems at hr'; exact calcSelection_head _ _ _ _ _ _ _ hr'
+  · obtain ⟨es, hes, rfl, hen'⟩ := enumItems_from H.s H.externEnums u en hen0
+    rw [hen'] at hen0'
+    cases hen0'
+    have nsc : NoEnum sc := (scalarItems_noEnum c u).of_ok hsc0
+    have ninp : NoEnum inp := (inputItems_noEnum c u).of_ok hinp0
+    have nvs : NoEnum vs := (variablesItems_noEnum c op).of_ok hv
+    have nfr : NoEnum fr.flatten :=
+      noEnum_flatten ((OAll.mapM (fragmentItems_noEnum c) _).of_ok hfr0)
+    have nr : NoEnum r := (responseItems_noEnum c o).of_ok hr
+    have nb : NoEnum builtinAliases := by intro it h; simp only [builtinAliases, List.mem_cons, List.not_mem_nil, or_false] at h; rcases h with rfl | rfl | rfl | rfl <;> rfl
+    have e1 : EnumsFrom c c' (builtinAliases ++ sc) (builtinAliases ++ sc') :=
+      enumsFrom_of_noEnum (nb.append nsc)
+    have l1 : (builtinAliases ++ sc).length = (builtinAliases ++ sc').length := by
+      simp only [List.length_append, ei_length hsc]
+    have e2 := enumsFrom_append l1 e1 (enumsFrom_map (c' := c') hes)
+    have l2 : (builtinAliases ++ sc ++ es.map (enumItem c)).length = (builtinAliases ++ sc' ++ es.map (enumItem c')).length := by
+      simp only [List.length_append, ei_length hsc, List.length_map]
+    have e3 := enumsFrom_append l2 e2 (enumsFrom_of_noEnum (c := c) (c' := c') (b := inp') ninp)
+    have e4 := enumsFrom_append (ei_length hpre) e3 (enumsFrom_of_noEnum (c := c) (c' := c') (b := vs') nvs)
+    have l4 : (builtinAliases ++ sc ++ es.map (enumItem c) ++ inp ++ vs).length =
+        (builtinAliases ++ sc' ++ es.map (enumItem c') ++ inp' ++ vs').length := by
+      rw [List.length_append, List.length_append (bs := vs'), ei_length hpre, ei_length hvs]
+    have e5 := enumsFrom_append l4 e4 (enumsFrom_of_noEnum (c := c) (c' := c') (b := fr'.flatten) nfr)
+    have l5 : (builtinAliases ++ sc ++ es.map (enumItem c) ++ inp ++ vs ++ fr.flatten).length =
+        (builtinAliases ++ sc' ++ es.map (enumItem c') ++ inp' ++ vs' ++ fr'.flatten).length := by
+      rw [List.length_append, List.length_append (bs := fr'.flatten), l4, ei_length hmid]
+    exact enumsFrom_append l5 e5 (enumsFrom_of_noEnum (c := c) (c' := c') (b := r') nr)
 
 /-- **`normalization` only renames**: the two contexts generate the same items up to names (or fail with the
     same error) -/
